@@ -72,7 +72,7 @@ static int validate_checksums(zckCtx *zck, zck_log_type bad_checksums) {
     /* Check each chunk checksum */
     bool all_good = true;
     for(zckChunk *idx = zck->index.first; idx; idx = idx->next) {
-        if(idx == zck->index.first && idx->length == 0) {
+        if(idx == zck->index.first && idx->comp_length == 0) {
             idx->valid = 1;
             if(zck->header_only)
                 break;
